@@ -189,6 +189,7 @@ from vf.hlib.refvm import RefVM
 SRC = {src!r}
 FS = {fs!r}
 TERMINATING = {term!r}
+REUSE = {reuse!r}
 MODEL = parse_script(SRC)
 
 
@@ -206,6 +207,23 @@ def run_real(limit, m):
         r = ('ok', execute_script(MODEL, opts))
     except BareScriptRuntimeError as e:
         r = ('err', str(e))
+    return r, tr, opts['statementCount']
+
+
+def run_real_reused(limit, m):
+    # the same options object used for two runs in a row: the second run must start its own count
+    tr = []
+
+    def tt(args, options):
+        tr.append((args[0] if args else None, options['statementCount']))
+    opts = {{'globals': {{'tt': tt, 'mm': m}}, 'maxStatements': limit, 'fetchFn': _fetch}}
+    for _ in range(2):
+        del tr[:]
+        opts['globals']['mm'] = m
+        try:
+            r = ('ok', execute_script(MODEL, opts))
+        except BareScriptRuntimeError as e:
+            r = ('err', str(e))
     return r, tr, opts['statementCount']
 
 
@@ -235,6 +253,11 @@ def core_budget(limit, m={m!r}):
         info['first_trace_divergence'] = k
         info['diverges_after_effect'] = repr(ref[1][k - 1]) if k > 0 else None
         return False, info
+    if REUSE:
+        again = run_real_reused(limit, m)
+        if again != real:
+            info.update(clause='a second run with the same options object must count from zero again', first=repr(real)[:300], second=repr(again)[:300])
+            return False, info
     if TERMINATING:
         full = run_real(0, m)
         n = full[2]
@@ -269,7 +292,7 @@ def plan(tier, seed, workdir):
     timeout = 150 if tier == 'quick' else 900
     for name, (src, fs, term) in PROGRAMS.items():
         for m in (range(mmax + 1) if term else [0]):
-            body = CORE.format(src=src, fs=fs, term=term, m=m)
+            body = CORE.format(src=src, fs=fs, term=term, m=m, reuse=(name in ('straight_loop', 'recursion', 'includes') and m <= 1))
             pre = [] if term else [f'1 <= limit <= {nt_limit}']
             body += hgen.harness('budget', 'limit: int', pre, core_call='core_budget(limit)')
             path = hgen.write_module(workdir, f'c09_{name}_m{m}', body)
